@@ -237,6 +237,66 @@ def check_discards(n_requests):
   return {'n': n, 'keys': n, 'viol': viol, 'sample': None}
 
 
+def check_interleave():
+  """Frames stay whole when periodic traffic comes due while a frame is only partly written: a 300-byte dispatch is blocked
+  after 6 bytes by back-pressure, 31 s pass (the 30 s ping comes due), the connection drains; every order in which blocked
+  writers proceed is enumerated.  The peer must be able to split the stream into exactly the frames that were sent."""
+  viol = []
+  n = 0
+  stack = [[]]
+  lp = vloop.loop()
+  while stack:
+    pfx = stack.pop()
+    world.reset()
+    chn = Chain('c')
+    ch = world.Chooser(pfx)
+    world.set_chooser(ch)
+    conn = chn.conn
+    conn.write_blocked = True
+    conn.block_after = 6
+    arg = 'y' * 300
+    frames0 = len(chn.peer.frames)
+    chn.call('big', arg, {}, None)
+    target = lp.now() + 31.0
+    while True:
+      vloop.run_ready()
+      t = lp.next_timer()
+      if t is None or t.at > target:
+        break
+      lp.fire(t)
+    lp.advance_to(target)
+    vloop.run_ready()
+    conn.write_blocked = False
+    conn.wake()
+    chn.pump()
+    world.set_chooser(None)
+    for i in range(len(pfx), len(ch.points)):
+      for alt in range(1, len(ch.points[i].labels)):
+        stack.append(ch.choices[:i] + [alt])
+    n += 1
+    got = chn.peer.frames[frames0:]
+    kinds = sorted(f[0] for f in got)
+    bad = None
+    if chn.peer.errors:
+      bad = 'the peer cannot split the byte stream into frames: %s' % chn.peer.errors[0]
+    elif [k for k in kinds if k not in (M.T_DISPATCH, M.T_PING)] or kinds.count(M.T_DISPATCH) != 1:
+      bad = 'the peer decoded frames of types %r, expected one Tdispatch and pings' % (kinds,)
+    else:
+      d = [f for f in got if f[0] == M.T_DISPATCH][0]
+      try:
+        body = M.decode_tdispatch(d[2])
+        hdr, log, _ = decode_thrift_call(chn.H, body['payload'])
+        if log != [('hi', arg)]:
+          bad = 'the dispatch decodes to %r' % (log,)
+      except Exception as e:  # noqa
+        bad = 'the dispatch does not decode: %r' % (e,)
+    if bad:
+      viol.append({'clause': 'C13.framing', 'message': 'a frame blocked after 6 bytes while a ping came due: %s (writer order %r)'
+                   % (bad, ch.trace()), 'sig': {'interleave': True}})
+      break
+  return {'n': n, 'keys': n, 'viol': viol, 'sample': {'interleave_runs': n}}
+
+
 def thrift_reply(H, value):
   from thrift.protocol.TBinaryProtocol import TBinaryProtocol
   from thrift.transport.TTransport import TMemoryBuffer
@@ -359,6 +419,7 @@ def main(tier, seed):
     out = explore.pmap('vt.checks.c13', 'check_requests', jobs, pool, seed)
     out.append(explore.pmap('vt.checks.c13', 'check_discards', [(12,)], pool, seed)[0])
     out.append(explore.pmap('vt.checks.c13', 'check_replies', [()], pool, seed)[0])
+    out.append(explore.pmap('vt.checks.c13', 'check_interleave', [()], pool, seed)[0])
     nreq = sum(o['n'] for o in out)
     rep.part('frames through the real sinks', engine='E', cases=nreq, context_dicts=len(ctxs), client_ids=CLIENT_IDS,
              deadlines=deadlines, strings=[s[:8] for s in STRS])
